@@ -2,6 +2,7 @@
    Spec: Spec/CIntSpec.v. Models: Gen/ceval.v (regenerated from ppci/lang/c/eval.py), Model/CEval.v,
    Model/CSema.v (fixed code), Model/CEvalOrig.v (the code before fixes/C27-*.diff). *)
 From PV Require Import Lib.Py Spec.CIntSpec Gen.ceval Model.CEval Model.CSema Model.CEvalOrig Proofs.C27_ceval.
+From PV Require Import Spec.CEnumSpec Model.CEnum Proofs.C27_enum.
 Open Scope Z_scope.
 
 (* -- the unfixed evaluator violates the property: 7 % 3, 1 < 2, 1 && 2, 1 ? 2 : 3, !5 raise internal
@@ -78,3 +79,27 @@ Proof. exact nonvacuous. Qed.
 Theorem c27_enum_branch_same_operators : Forall enum_entry_agrees binop_enum_table.
 Proof. exact enum_table_agrees. Qed.
 Print Assumptions c27_enum_branch_same_operators.
+
+(* enumerator values (CContext._calculate_enum_values, Model/CEnum.v; C11 6.7.2.2, Spec/CEnumSpec.v): for EVERY
+   enumerator list whose defining expressions have C values, each constant gets exactly its C value (explicit value,
+   else previous + 1, first 0) and the list is diagnosed (never an internal error, never a wrapped value) exactly
+   when some value is not representable as int *)
+Theorem c27_enum_values_exact : forall c l, wf_ctx c ->
+  match enum_spec (dm_of c) 0 l with
+  | None => True
+  | Some None => exists d, enum_values c (map (option_map (elab c)) l) = Diag d
+  | Some (Some vs) => enum_values c (map (option_map (elab c)) l) = Ok vs
+  end.
+Proof. exact (fun c l W => enum_values_exact c l W). Qed.
+Print Assumptions c27_enum_values_exact.
+
+Theorem c27_enum_values_no_internal : forall c l x, wf_ctx c ->
+  enum_spec (dm_of c) 0 l <> None -> enum_values c (map (option_map (elab c)) l) <> Internal x.
+Proof. exact enum_values_no_internal. Qed.
+Print Assumptions c27_enum_values_no_internal.
+
+Example c27_enum_nonvacuous :
+  enum_spec (dm_of x86_64) 0 enum_demo = Some (Some [-7; -6; -3; -2; 2147483647]) /\
+  enum_spec (dm_of x86_64) 0 (enum_demo ++ [None]) = Some None /\
+  enum_spec (dm_of msp430) 0 [Some (lit 32767); None] = Some None.
+Proof. exact enum_nonvacuous. Qed.
